@@ -1,7 +1,8 @@
 ---------------------------- MODULE MC_DefGraph ----------------------------
 EXTENDS DefGraph, DefGraphData, Json
 \* report instead of stopping at the first alarm: every inconsistent declaration and every ungrounded unit
-Report == Done =>
+ExportPair == ev.op = "pair" => PrintT("@@PAIR " \o ToJson([a |-> ev.b, b |-> ev.to, lat |-> ev.i]))
+Report == (Done /\ ev.op # "pair") =>
    /\ \A i \in 1..Len(DDecls) : LET d == DDecls[i] IN
         ((Mentioned(d) \subseteq DOMAIN size) /\ Abs(Residual(d, size)) > Tol(d)) =>
             PrintT("@@BAD " \o ToJson([kind |-> "residual", i |-> i, res |-> Residual(d, size), tol |-> Tol(d)]))
